@@ -20,7 +20,7 @@ import toast_terms as TT
 
 TRUSTED = [
     "harness/toast_terms.py: PyxModel (regex front end for exactly the statement shapes of _mid/_subsample, libm via ctypes) "
-    "and the recording mid; hash collisions (61-bit) neglected",
+    "and the recording mid; hash collisions (63-bit) neglected",
     "numeric tests only (not proof): pixel = centre of the deeper tile (chord < 1e-12), pixel centre inside its tile "
     "(half-space margin >= -1e-12) and inside the corners' latitude range (1e-12), exhaustively to the stated depth",
 ]
@@ -32,13 +32,13 @@ IMPORTS = ["Model.Quadtree", "Model.ToastTerm"]
 
 COQ_DEFS = TT.COQ_DIGEST_DEFS + TT.COQ_SUB_DIGEST_DEFS + r"""
 Inductive c5case :=
-| KSub (k : nat) (ul ur lr ll : N) (inc : bool) (digest : N)
-| KCoords (t : htile) (a b c d : N) (k : nat) (inc : bool).
+| KSub (k : nat) (ul ur lr ll : int) (inc : bool) (digest : int)
+| KCoords (t : htile) (a b c d : int) (k : nat) (inc : bool).
 Definition chk5 (c : c5case) : nat :=
   match c with
-  | KSub k ul ur lr ll inc digest => if N.eqb (sub_digest k ul ur lr ll inc) digest then 0%nat else 1%nat
+  | KSub k ul ur lr ll inc digest => if ieq (sub_digest k ul ur lr ll inc) digest then 0%nat else 1%nat
   | KCoords t a b c d k inc =>
-      if forallb (fun ij => N.eqb (tile_coords hmid t (fst ij) (snd ij)) (subsample hmid k a b c d inc (fst ij) (snd ij)))
+      if forallb (fun ij => ieq (tile_coords hmid t (fst ij) (snd ij)) (subsample hmid k a b c d inc (fst ij) (snd ij)))
                  [(0,0); (0,255); (255,0); (255,255); (127,128); (128,127); (3,200); (77,5)]
       then 0%nat else 2%nat
   end.
@@ -123,12 +123,12 @@ def run(ctx, V):
             for k in ((0, 1, 2, 3, 5) if quick else (0, 1, 2, 3, 4, 5, 6)):
                 hs = row[3] if rng.random() < 0.7 else tuple(rng.randrange(TT.HASH_M) for _ in range(4))
                 for incv in ((inc,) if k > 3 else (True, False)):
-                    terms.append("(KSub %d %d %d %d %d %s %d)" % (k, hs[0], hs[1], hs[2], hs[3], g_bool(incv), pm.hash_grid_digest(k, hs, incv)))
+                    terms.append("(KSub %d %s %s %s %s %s %s)" % (k, *(TT.g_i(h) for h in hs), g_bool(incv), TT.g_i(pm.hash_grid_digest(k, hs, incv))))
                     meta.append(dict(route="subsample-hash", k=k, planet=planet, pos=list(p), inc=incv))
                     hist[f"hash/k{k}"] = hist.get(f"hash/k{k}", 0) + 1
         hs = real_tiles[0][2][3]
         for incv in ((True,) if quick else (True, False)):
-            terms.append("(KSub 8 %d %d %d %d %s %d)" % (hs[0], hs[1], hs[2], hs[3], g_bool(incv), pm.hash_grid_digest(8, hs, incv)))
+            terms.append("(KSub 8 %s %s %s %s %s %s)" % (*(TT.g_i(h) for h in hs), g_bool(incv), TT.g_i(pm.hash_grid_digest(8, hs, incv))))
             meta.append(dict(route="subsample-hash", k=8, planet=real_tiles[0][0], pos=list(real_tiles[0][1]), inc=incv))
             hist["hash/k8"] = hist.get("hash/k8", 0) + 1
         # C: mid and grids, source semantics vs .so
@@ -176,7 +176,7 @@ def run(ctx, V):
                 continue
             _tag, a, b, c, d, npix, inc2 = r
             k = int(round(math.log2(npix))) if npix and npix > 0 else 0
-            terms.append("(KCoords %s %d %d %d %d %d %s)" % (TT.g_htile(row), a, b, c, d, k, g_bool(bool(inc2))))
+            terms.append("(KCoords %s %s %s %s %s %d %s)" % (TT.g_htile(row), TT.g_i(a), TT.g_i(b), TT.g_i(c), TT.g_i(d), k, g_bool(bool(inc2))))
             meta.append(dict(route="get_coords-args", planet=planet, pos=list(p)))
     finally:
         T.subsample = old
